@@ -26,10 +26,12 @@ def main(tier, replay):
     J('sens-missing-row', 'p1', [1, 2, 1, 1, 0, 1, 1], expect='exactly the written rows')
     run_program_jobs(c, mod, infos, jobs, native_templates=NATIVE)
     c.programs = len(P)
+    # distinct fault positions actually exercised (distinct failed-call notes per workload), measured by the engine
+    c.extra['distinct_nontrivial_override'] = sum(jr.get('distinct_notes', 0) for j, jr, x in c.jobs if not j.get('expect'))
     ncalls = [jr['paths'] for j, jr, x in c.jobs]
     c.bounds = {'fault index k': 'symbolic int64 >= 1 over the combined Read/Seek call sequence of the source: one path per call plus the fault-free one (exhaustive over k)',
                 'workloads': '2 row groups x 2 records of fixed structure with symbolic values, page size 1 (2 thorough), each codec, programs %s' % sorted(P), 'paths per workload': [min(ncalls or [0]), max(ncalls or [0])],
                 'outside': 'failures inside the stubbed decoders are modelled as "the decoder returns the transport error" (A2); thrift headers are read one byte per Read call in the abstract file'}
     c.assumptions = [STUB_ASSUMPTIONS[k] for k in ('A1', 'A2', 'A3', 'A4', 'A6', 'A7')]
-    c.finish('paths = value of the symbolic fault index k relative to the number of source calls; each faulting path is distinct and non-trivial; evaluations = paths',
+    c.finish('paths = value of the symbolic fault index k relative to the number of source calls; distinct_nontrivial = number of distinct (workload, failing call index) pairs actually exercised, counted from the per-path notes; evaluations = paths',
              'NewParquetReader, ReadFooter/ReadMetaData/getMetaDataSize, Pages, RowGroups, readRowGroup, DoRead x2, pageData, readLevels, rle.Read, generated Read/Scan/Next executed from SSA on a source whose k-th Read/Seek fails; property: no panic and (constructor error, or Error() != nil after iteration, or every delivered row correct and complete)')
